@@ -11,6 +11,7 @@ followed by the arrays it received and assigned (Python mutates them in place).
 Fail-closed: anything outside this subset raises Unsupported.
 """
 import ast
+import copy
 
 
 class Unsupported(Exception):
@@ -247,6 +248,22 @@ class Imp:
                 if not isinstance(target, ast.Name):
                     fail(s, "call result target")
                 return self.call_stmt(value, target.id, env, k, eff)
+            # <target> = <scalar name or constant> (+|-|*) kernel(args): the call is evaluated into a temporary first. Sound because
+            # the other operand is a scalar local or a constant (the call can only change the arrays it receives)
+            if isinstance(value, ast.BinOp) and isinstance(value.right, ast.Call) and isinstance(value.right.func, ast.Name) \
+                    and value.right.func.id in self.callees and isinstance(value.left, (ast.Name, ast.Constant)) \
+                    and not (isinstance(value.left, ast.Name) and value.left.id in self.arrays):
+                tmp = "call_result_%d" % getattr(value.right, "lineno", 0)
+                rest_stmt = copy.copy(s)
+                new_value = ast.BinOp(left=value.left, op=value.op, right=ast.Name(id=tmp, ctx=ast.Load()))
+                if isinstance(s, ast.AugAssign):
+                    rest_stmt = ast.AugAssign(target=s.target, op=s.op, value=new_value)
+                elif isinstance(s, ast.AnnAssign):
+                    rest_stmt = ast.AnnAssign(target=s.target, annotation=s.annotation, value=new_value, simple=s.simple)
+                else:
+                    rest_stmt = ast.Assign(targets=s.targets, value=new_value)
+                ast.copy_location(rest_stmt, s)
+                return self.call_stmt(value.right, tmp, env, lambda e: self.block([rest_stmt] + rest, e, result, eff), eff)
             if isinstance(target, ast.Name):
                 if op is None:
                     new = self.expr(value, env)
